@@ -14,12 +14,16 @@ EXPLANATION = (
     "rule in the package (functions decorated with jax.custom_jvp / custom_vjp and their defjvp rules): the tangent returned by a rule "
     "must lie in the tangent space of its primal output -- an upper-triangular primal needs an upper-triangular tangent.  "
     "(2) Stop-gradient discipline: every func.stop_gradient call sits directly under `if self.<flag>` for a constructor flag, "
-    "and with the flag off no stop_gradient is executed on the step / rejection-loop paths."
+    "and with the flag off no stop_gradient is executed on the step / rejection-loop paths.  "
+    "(3) Finite derivatives at an exact initial state: every Normal class computes its standard deviation from the Cholesky factor through primitives "
+    "whose derivative is defined at zero rows (sibling cross-check; qr_r admitted while its custom rule has no division/solve).  "
+    "(4) Gram consistency of the custom triangularisation rule, R^T R_dot + R_dot^T R = M^T M_dot + M_dot^T M, decided by rewriting in a free matrix-word algebra "
+    "(Q R -> M, Q^T Q -> I): the second necessary condition of a true tangent, and the reason covariances differentiate exactly."
 )
 LEVEL = "other"
-TECHNIQUE = "abstract interpretation of custom AD rules with a matrix-structure lattice; syntactic dominance + interpretation of flag-guarded stop_gradient sites"
+TECHNIQUE = "abstract interpretation of custom AD rules with a matrix-structure lattice and a free matrix-word algebra with rewriting; syntactic dominance + interpretation of flag-guarded stop_gradient sites; primitive-table check of zero-differentiability with sibling cross-check"
 LEVEL_TEXT = (
-    "Two necessary conditions only, each decided on the source for all inputs.  That JAX's own rules and their composition give the true "
+    "Four necessary conditions only, each decided on the source for all inputs.  That JAX's own rules and their composition give the true "
     "derivative values is a statement about XLA/JAX execution and is not claimed."
 )
 LEVEL_NOTE = (
@@ -132,6 +136,129 @@ def check_rule(p, m, fn, rule):
     return ok, f"primal output is {sp}, rule's primal {sr}, rule's tangent {st}: {T.show(res[1], 4)}"
 
 
+
+# ---------------------------------------------------------------------------
+# Gram consistency of a triangularisation rule.  With M = Q R, any true tangent R_dot satisfies
+#     R^T R_dot + R_dot^T R = M^T M_dot + M_dot^T M            (differentiate R^T R = M^T M).
+# The rule is evaluated in a free algebra of matrix words over {Q, R, M, M_dot} with the rewrites  Q R -> M,  R^T Q^T -> M^T,  Q^T Q -> I.
+class _NotPoly(Exception):
+    pass
+
+
+def _sym_of(t):
+    """('Q'|'R'|'M'|'D', transposed) for the atoms of the rule; None otherwise."""
+    if t.op == "atom":
+        return {"M": "M", "M_dot": "D"}.get(t.args[0])
+    if t.op == "getitem" and isinstance(t.args[0], T.Term) and t.args[0].op.endswith("linalg.qr") and t.args[0].args and isinstance(t.args[0].args[0], T.Term) and t.args[0].args[0].op == "atom" and t.args[0].args[0].args[0] == "M":
+        if t.args[0].kwargs.get("mode", "reduced") == "reduced":
+            return {0: "Q", 1: "R"}.get(t.args[1])
+    if t.op.endswith("linalg.qr") and t.kwargs.get("mode") == "r" and t.args[0].op == "atom" and t.args[0].args[0] == "M":
+        return "R"
+    return None
+
+
+def _reduce(word):
+    w = list(word)
+    changed = True
+    while changed:
+        changed = False
+        for i in range(len(w) - 1):
+            a, b = w[i], w[i + 1]
+            rep = None
+            if a == ("Q", False) and b == ("R", False):
+                rep = [("M", False)]
+            elif a == ("R", True) and b == ("Q", True):
+                rep = [("M", True)]
+            elif a == ("Q", True) and b == ("Q", False):
+                rep = []
+            if rep is not None:
+                w[i : i + 2] = rep
+                changed = True
+                break
+    return tuple(w)
+
+
+def _padd(p, q, c=1):
+    r = dict(p)
+    for w, k in q.items():
+        r[w] = r.get(w, 0) + c * k
+        if r[w] == 0:
+            del r[w]
+    return r
+
+
+def _pmul(p, q):
+    r = {}
+    for w1, k1 in p.items():
+        for w2, k2 in q.items():
+            w = _reduce(w1 + w2)
+            r[w] = r.get(w, 0) + k1 * k2
+            if r[w] == 0:
+                del r[w]
+    return r
+
+
+def _ptrans(p):
+    return {_reduce(tuple((s, not tr) for s, tr in reversed(w))): k for w, k in p.items()}
+
+
+def words(t):
+    """Polynomial in matrix words of a rule expression; raises _NotPoly for anything else (solves, masks, ...)."""
+    if isinstance(t, (int, float)):
+        raise _NotPoly("scalar")
+    if not isinstance(t, T.Term):
+        raise _NotPoly(repr(t))
+    s = _sym_of(t)
+    if s is not None:
+        return {((s, False),): 1}
+    if t.op == "attr" and t.args[1] == "T":
+        return _ptrans(words(t.args[0]))
+    if t.op == "matmul":
+        return _pmul(words(t.args[0]), words(t.args[1]))
+    if t.op == "add":
+        return _padd(words(t.args[0]), words(t.args[1]))
+    if t.op == "sub":
+        return _padd(words(t.args[0]), words(t.args[1]), -1)
+    if t.op == "neg":
+        return _padd({}, words(t.args[0]), -1)
+    if t.op == "mul" and any(isinstance(a, (int, float)) for a in t.args):
+        k = next(a for a in t.args if isinstance(a, (int, float)))
+        o = next(a for a in t.args if not isinstance(a, (int, float)))
+        return {w: k * c for w, c in words(o).items() if k * c != 0}
+    raise _NotPoly(t.op)
+
+
+def gram_consistent(primal_out, tangent):
+    """True / False / None (not decidable by rewriting) with a one-line reason."""
+    R = {(("R", False),): 1}
+    want = _padd({(("M", True), ("D", False)): 1}, {(("D", True), ("M", False)): 1})
+    try:
+        if words(primal_out) != R:
+            return None, "rule's primal output is not R of M = Q R"
+        td = words(tangent)
+    except _NotPoly as e:
+        # a structural mask (triu / tril / elementwise product with a mask) of a Gram-consistent general matrix is not Gram-consistent:
+        # the removed strictly-lower part L = e_n e_1^T gives R^T L = R_nn e_n e_1^T whose symmetric part is non-zero for invertible R (n >= 2).
+        if isinstance(tangent, T.Term) and (tangent.op.endswith(".triu") or tangent.op.endswith(".tril")) and tangent.args:
+            inner_ok, _ = gram_consistent(primal_out, tangent.args[0])
+            if inner_ok is True and struct(tangent.args[0]) == "general":
+                return False, f"{tangent.op.rsplit('.', 1)[1]} of the Gram-consistent general matrix {T.show(tangent.args[0], 3)} drops a part whose contribution to R^T R_dot + R_dot^T R is non-zero"
+        return None, f"not a polynomial in Q, R, M, M_dot ({e})"
+    lhs = _pmul(_ptrans(R), td)
+    lhs = _padd(lhs, _ptrans(lhs))
+    if lhs == want:
+        return True, "R^T R_dot + R_dot^T R rewrites to M^T M_dot + M_dot^T M (Q R -> M, Q^T Q -> I)"
+    return False, f"R^T R_dot + R_dot^T R rewrites to {sorted(lhs.items())}, not to M^T M_dot + M_dot^T M"
+
+
+def check_gram(p, m, fn, rule):
+    M, Md = T.atom("M"), T.atom("M_dot")
+    res = eval_fn(p, m, rule, [(M,), (Md,)])
+    if not (isinstance(res, (tuple, list)) and len(res) == 2):
+        return None, f"rule returns {T.show(res, 2)}"
+    return gram_consistent(res[0], res[1])
+
+
 POSITIVE_CONTROL_SRC = '''
 import jax
 import jax.numpy as jnp
@@ -165,6 +292,7 @@ def run(chk, S: Session):
     chk.trust("qr(M) = (Q, R) with R upper-triangular", "triu / tril", "products of like-triangular matrices are triangular")
     r1 = chk.rule("R-C16-1", "custom differentiation rules return tangents inside the tangent space of their primal output (structure lattice)", floor=1)
     r2 = chk.rule("R-C16-2", "stop_gradient only directly behind a constructor flag; none executed with the flag off", floor=4)
+    r4 = chk.rule("R-C16-4", "custom triangularisation rules are Gram-consistent: R^T R_dot + R_dot^T R = M^T M_dot + M_dot^T M (exact derivatives of every quantity that depends on R through R^T R)", floor=1)
     p = S.p
     rules = custom_rules(p)
     if not rules:
@@ -175,7 +303,11 @@ def run(chk, S: Session):
     ok_bad, d_bad = check_rule(p, pcm, pcm.functions["bad"], pcm.functions["bad_jvp"])
     if ok_good is not True or ok_bad is not False:
         raise AnalysisError(f"positive control of the structure analysis failed: good -> {ok_good} ({d_good}); bad -> {ok_bad} ({d_bad})")
-    chk.extra["positive_control"] = {"good_rule": d_good, "bad_rule": d_bad}
+    g_good, gd_good = check_gram(p, pcm, pcm.functions["good"], pcm.functions["good_jvp"])
+    g_bad, gd_bad = check_gram(p, pcm, pcm.functions["bad"], pcm.functions["bad_jvp"])
+    if g_good is not False or g_bad is not True:
+        raise AnalysisError(f"positive control of the Gram-consistency analysis failed: masked rule -> {g_good} ({gd_good}); Q^T M_dot -> {g_bad} ({gd_bad})")
+    chk.extra["positive_control"] = {"good_rule": d_good, "bad_rule": d_bad, "gram_masked_rule": gd_good, "gram_plain_rule": gd_bad}
     for m, fn, rls in rules:
         if not rls:
             r1.unknown(f"{m.name}.{fn.name}", "custom-derivative function without a registered rule in the same module", m.relpath)
@@ -189,6 +321,12 @@ def run(chk, S: Session):
             r1.require(ok, f"{m.name}.{fn.name}", detail, f"custom rule {rule.name}: {detail} -- the tangent leaves the tangent space of the primal output, so derivatives through this function are not the true derivatives",
                        f"{m.relpath}:{rule.lineno}")
             chk.sample({"rule": "R-C16-1", "function": f"{m.name}.{fn.name}", "analysis": detail})
+            if fn.name.startswith("qr"):
+                try:
+                    okg, dg = check_gram(p, m, fn, rule)
+                except AnalysisError as e:
+                    okg, dg = None, str(e)
+                r4.require(okg, f"{m.name}.{fn.name} Gram consistency", dg, f"custom rule {rule.name}: {dg} -- derivatives of covariances R^T R computed through this rule are not the true derivatives", f"{m.relpath}:{rule.lineno}")
     # ---------------- stop-gradient discipline (syntactic)
     sites = []
     for m in p.modules.values():
@@ -257,3 +395,80 @@ def run(chk, S: Session):
         n = len([e for e in it.events if e["kind"] == "stop_gradient"])
         r2.require(n == 0, f"{sq.rsplit('.', 1)[1]}.step with stop-gradient flags off", "no stop_gradient executed", f"{n} stop_gradient calls executed although all stop-gradient flags are off")
         S.absorb(it)
+    zero_state_rules(chk, S, rules)
+
+
+# primitives whose derivative is undefined at a zero argument (x / |x|, 1 / (2 sqrt x)); abs is fine in JAX (sign(0) = 0)
+UNDEFINED_AT_ZERO = {"linalg.vector_norm", "linalg.matrix_norm", "np.sqrt", "np.linalg.norm", "np.hypot", "linalg.cholesky", "np.log", "np.arccos"}
+
+
+def _reductions(it, term, root_atom):
+    """Primitives applied (directly or through vmap) to a value that depends on ``root_atom``."""
+    from ..interp import Closure, WrappedFn
+
+    found = []
+    for t in T.subterms(term):
+        if not isinstance(t, T.Term):
+            continue
+        if t.op == "vmap_apply":
+            f = t.args[0]
+            while isinstance(f, WrappedFn):
+                f = f.fn
+            args = t.args[1:]
+            dep = any(root_atom in T.value_atoms(x) for x in args)
+            if isinstance(f, PrimV):
+                found.append((f.name, dep, t))
+            elif isinstance(f, Closure) and dep:
+                try:
+                    inner = it.call(f, [T.atom(f"{root_atom}") if root_atom in T.value_atoms(x) else x for x in args], {}, "<harness>")
+                    found.extend(_reductions(it, inner, root_atom))
+                except Exception:  # noqa: BLE001 -- an un-interpretable body is reported as unknown by the caller (nothing found)
+                    found.append(("<uninterpreted closure>", dep, t))
+        elif t.op.startswith(("linalg.", "np.")) and t.args:
+            dep = any(root_atom in T.value_atoms(x) for x in t.args)
+            found.append((t.op, dep, t))
+    return found
+
+
+def zero_state_rules(chk, S, rules):
+    """An exact initial state (the default) has a zero Cholesky factor: what is reported there must have a derivative at zero."""
+    from ..harness import BLOCK, DENSE, ISO
+
+    r3 = chk.rule("R-C16-3", "standard deviations are computed from the Cholesky factor through primitives with a derivative at zero rows (exact initial state)", floor=4)
+    # qr_r is admitted as zero-safe only while its custom rule has no division / solve / inverse (finite tangent for every input)
+    qr_rules = [(m, fn, rls) for m, fn, rls in rules if fn.name == "qr_r"]
+    safe = set()
+    for m, fn, rls in qr_rules:
+        bad = []
+        for rl in rls:
+            for node in ast.walk(rl):
+                if isinstance(node, ast.BinOp) and isinstance(node.op, (ast.Div, ast.FloorDiv)):
+                    bad.append(f"division at line {node.lineno}")
+                if isinstance(node, ast.Call) and any(k in ast.unparse(node.func) for k in ("solve", "inv", "lstsq", "reciprocal", "divide")):
+                    bad.append(f"{ast.unparse(node.func)} at line {node.lineno}")
+        r3.require(not bad, "qr_r custom rule is finite at zero", "no division, solve or inverse in the rule", f"the custom rule of qr_r contains {bad}", f"{m.relpath}:{fn.lineno}")
+        if not bad:
+            safe.add("linalg.qr_r")
+    if not qr_rules:
+        r3.unknown("qr_r custom rule is finite at zero", "no custom rule for qr_r found")
+    for mod, cls, rank in ((DENSE, "DenseNormal", 1), (ISO, "IsotropicNormal", 2), (BLOCK, "BlockDiagNormal", 2)):
+        it = S.interp()
+        mf = T.atom(f"zs_mean_{cls}", ndims={"": rank})
+        mf.meta["ndim"] = rank
+        cf = T.atom(f"zs_chol_{cls}", ndims={"": rank + 1})
+        cf.meta["ndim"] = rank + 1
+        rv = it.instantiate(it.class_value(f"{mod}.{cls}"), [mf, cf, A("tf")], {}, "<harness>")
+        try:
+            sd = it.getattr(rv, "std", "<harness>")
+        except AnalysisError as e:
+            r3.unknown(f"{cls}.std differentiable at a zero Cholesky factor", str(e), mod)
+            continue
+        S.absorb(it)
+        red = [(n, t) for n, dep, t in _reductions(it, sd, f"zs_chol_{cls}") if dep]
+        norms = [(n, t) for n, t in red if n in UNDEFINED_AT_ZERO or n in safe or n == "linalg.qr_r" or n.startswith("<")]
+        badp = sorted({n for n, _ in norms if n not in safe})
+        if not norms:
+            r3.unknown(f"{cls}.std differentiable at a zero Cholesky factor", f"no row-norm reduction of the Cholesky factor recognised in {T.show(sd, 4)}", mod)
+            continue
+        r3.require(not badp, f"{cls}.std differentiable at a zero Cholesky factor", f"row norms via {sorted({n for n, _ in norms})}",
+                   f"row norms of the Cholesky factor via {badp}: the derivative is undefined (NaN) at zero rows, which is the default exact initial state", getattr(norms[0][1], "origin", None) or mod)
